@@ -1,17 +1,17 @@
-\* C03 lock-step: slice, reshape the non-contiguous result (detached copy), then write through any view
+\* rank-reducing slices (table-parameter form) of roots and of slices, then one write through any view
 SPECIFICATION Spec
 CONSTANTS
-  Shapes <- ShapesA
+  Shapes <- ShapesR
   StepVals <- Steps12
-  MaxSlices = 1
+  MaxSlices = 2
   MaxWrites = 1
-  MaxReshapes = 1
+  MaxReshapes = 0
   WriteOps = {"set", "apply"}
   AllowNil = FALSE
   ChainOnly = TRUE
   WriteNewest = FALSE
-  AllowReduce = FALSE
-  AllowCopy = TRUE
+  AllowReduce = TRUE
+  AllowCopy = FALSE
   EarlyStop = FALSE
   Emit = TRUE
 INVARIANTS ViewsOK ContigIsRun Live
